@@ -33,8 +33,8 @@ import asmcommon as ac  # noqa: E402
 import disgen  # noqa: E402
 
 ID = 'C09'
-LEAN_MODULES = ['Py65.Props.C09', disgen.GENEQ_MODULE, 'Py65.Props.C09g']
-NAMESPACES = ['Py65.Props.C09', 'Py65.Props.C09g', disgen.GENEQ_NAMESPACE]
+LEAN_MODULES = ['Py65.Props.C09', disgen.GENEQ_MODULE, 'Py65.Props.C09g', 'Py65.Props.C09h']
+NAMESPACES = ['Py65.Props.C09', 'Py65.Props.C09g', 'Py65.Props.C09h', disgen.GENEQ_NAMESPACE]
 # library helpers (CPython behaviour modelled in lean/Py65/Model/*Rt*.lean ...) that the generated code of these
 # modules calls, derived by scanning the Lean sources (harness/rtscan.py); validated against CPython on every run
 import rtcheck  # noqa: E402
@@ -49,6 +49,12 @@ EXPECTED_THEOREMS = [
     'Py65.Props.C09g.dis_total', 'Py65.Props.C09g.dis_len', 'Py65.Props.C09g.dis_undeclared',
     'Py65.Props.C09g.dis_len_eq_exec', 'Py65.Props.C09g.dis_branch_target', 'Py65.Props.C09g.dis_branch_taken',
     'Py65.Props.C09g.dis_jmp_jsr',
+    # composition with C19 (the walk of `disassemble`), C01-C03 / C05h (the GENERATED device) and C12 (the access
+    # log): the listing follows the execution (lean/Py65/Props/C09h.lean, notes/compose2.md)
+    'Py65.Props.C09h.step_follows_listing', 'Py65.Props.C09h.listing_follows_execution',
+    'Py65.Props.C09h.listing_follows_execution_log', 'Py65.Props.C09h.listing_follows_execution_range',
+    'Py65.Props.C09h.listing_of_renamed',
+    'Py65.Props.C09h.listing_ends_in_transfer',
 ] + disgen.GENEQ_THEOREMS
 pre_build = disgen.pre_build
 RULE = ('devices x opcode bytes 0..255 enumerated; addresses {0,1,top-2,top-1,top} then random; operand cells from '
@@ -65,6 +71,11 @@ TRUSTED = [
     'Spec.Cpu.step (programming model; C01-C03 tie it to the translated device code) for the execution theorems; '
     'the execution comparison of this check runs the REAL device',
     'documented tables parsed from lean/Py65/Spec/Isa.lean by harness/asmcommon.py',
+    'C09h (composition, proof only): the GENERATED device steps Py65.Gen.dev6502/dev65c02/dev65org16.step (what the '
+    'driver runs; tied to the real classes by the translation validation of C01-C03) through C01_full / C02_full / '
+    'C03_full and the history closure C05h (Proofs/HistStep), the access-log theorem C12 (accesses_nmos6502 / _cmos / '
+    '_org16) and the walk model Model.Show.Visits of do_disassemble (tied to monitor.py by C19: ReprGenEq.do_disassemble_eq); '
+    'nothing new is modelled',
 ]
 ASSUMPTIONS = [
     'the opcode cell at the disassembled address holds a byte 0..255 (the quantifier of C09); a 65Org16 cell above '
@@ -74,6 +85,17 @@ ASSUMPTIONS = [
     'instruction_at(top) raises IndexError from ByteAt(pc + 1) -- outside C09',
     'operand cells are within the device byte width; label values within the address space',
     'generated model: memory cells and addresses are not negative ("%0Nx" % n is modelled for n >= 0)',
+    'C09h listing_follows_execution: the start state is well-formed and running (Hist.Inv, not waiting) with pc = start; '
+    'start and end are addresses (end <= 2^ADDR_WIDTH - 1; start > end = a range that wraps past the top of memory); '
+    'every listed instruction is a declared opcode that is not a branch / JMP / JSR / RTS / RTI / BRK and not WAI '
+    '(Straight); hypothesis ON THE RUN: when the device has made k steps the opcode cell of the k-th listed instruction '
+    'still holds what the listing saw (hfixed) -- or, access-log form (listing_follows_execution_log), the log of the '
+    'generated device never shows a write to a protected cell (any set of cells containing the listed opcode cells) in '
+    'the states the run passes through (listing_follows_execution_range: Prot = the cells of the range start:end itself, '
+    'start..top and 0..end when it wraps).  NOT assumed: binary mode (ADC / SBC in decimal mode are covered), '
+    'well-formedness along the run (proved, C05h).  listing_ends_in_transfer: the last listed instruction is JMP abs, '
+    'JSR abs whose pushes do not hit its own operand bytes (C01 exclusion: the real JSR pushes before it reads the '
+    'target), or a relative branch taken in the state reached; its three cells still hold what the listing saw',
 ]
 
 CONTROL = ('BCC', 'BCS', 'BEQ', 'BMI', 'BNE', 'BPL', 'BVC', 'BVS', 'BRA', 'JMP', 'JSR', 'RTS', 'RTI', 'BRK')
